@@ -139,3 +139,80 @@ func gen(w *world, t *trace.W, r *rng.R, maxOps int, srv bool) {
 		w.run(t, op)
 	}
 }
+
+// genGated produces a sequence with gated two-operation schedules: an operation is parked at its first
+// store write (it holds the cluster lock there), a second operation - mostly on the same store - is started
+// from another goroutine and must block on that lock, then the write is released.  Masks are 0.
+func genGated(w *world, t *trace.W, r *rng.R, srv bool) {
+	mode := "rc"
+	if srv {
+		mode = "srv"
+	}
+	w.run(t, fmt.Sprintf("reset %s strict=0 loc=%s pr=%d cv=%s", mode, genLocs[r.Intn(len(genLocs))], r.Intn(2),
+		[]string{"2.0.0", "4.0.0"}[r.Intn(2)]))
+	n := r.Range(2, 4)
+	for id := 1; id <= n; id++ {
+		w.run(t, fmt.Sprintf("put %d %s %s %d %s U 0 0", id, genAddrs[id-1], []string{"4.0.0", "4.0.1", "4.1.0"}[r.Intn(3)],
+			r.Intn(3), genLabels(r)))
+	}
+	cleaned := false
+	storeOp := func(id int) string {
+		switch r.Pick(22, 12, 18, 16, 8, 8, 8, 8) {
+		case 0:
+			return "check 0"
+		case 1:
+			return fmt.Sprintf("put %d %s %s %d %s U 0 0", id, genAddrs[r.Intn(len(genAddrs))],
+				[]string{"4.0.0", "4.0.1", "4.1.0"}[r.Intn(3)], r.Intn(3), genLabels(r))
+		case 2:
+			return fmt.Sprintf("remove %d %d 0", id, r.Pick(3, 1))
+		case 3:
+			return fmt.Sprintf("up %d 0", id)
+		case 4:
+			return fmt.Sprintf("labels %d %s %d 0", id, genLabels(r), r.Intn(2))
+		case 5:
+			return fmt.Sprintf("weight %d %s %s 0", id, genWeights[r.Intn(len(genWeights))], genWeights[r.Intn(len(genWeights))])
+		case 6:
+			if srv && !cleaned {
+				return fmt.Sprintf("ghb %d 0", id)
+			}
+			return fmt.Sprintf("bury %d 0", id)
+		}
+		if srv {
+			return fmt.Sprintf("gput %d %s 4.0.1 %d %s U 0 0", id, genAddrs[r.Intn(len(genAddrs))], r.Intn(3), genLabels(r))
+		}
+		cleaned = true
+		return "rmtomb 0"
+	}
+	for k, pairs := 0, r.Range(3, 6); k < pairs; k++ {
+		id := r.Range(1, n)
+		// bring the cluster into an interesting state first
+		for j, m := 0, r.Range(0, 2); j < m; j++ {
+			switch r.Pick(40, 15, 25, 20) {
+			case 0:
+				w.run(t, fmt.Sprintf("remove %d %d 0", id, r.Pick(4, 1)))
+			case 1:
+				w.run(t, fmt.Sprintf("up %d 0", r.Range(1, n)))
+			case 2:
+				w.run(t, fmt.Sprintf("region %d %d", r.Range(1, 2), r.Range(1, n)))
+			case 3:
+				w.run(t, fmt.Sprintf("region %d 7", r.Range(1, 2)))
+			}
+		}
+		op1 := storeOp(id)
+		id2 := id
+		if r.Bool(1, 4) {
+			id2 = r.Range(1, n)
+		}
+		op2 := storeOp(id2)
+		if strings.HasPrefix(op2, "ghb") && cleaned {
+			op2 = fmt.Sprintf("up %d 0", id2)
+		}
+		if res := w.run(t, "park "+op1); res != "parked" {
+			continue
+		}
+		w.run(t, op2)
+		if res := w.run(t, "release"); strings.HasSuffix(res, " parked") {
+			w.run(t, "release")
+		}
+	}
+}
